@@ -1842,6 +1842,43 @@ fn c17(t: &[&str], out: &str) -> R {
     }
 }
 
+/// C19, structural part: with the word stream w injected, random() of n variables must be the
+/// table whose position m is bit (m mod 64) of word (m div 64) - every position its own stream
+/// bit -, it must read exactly as many words as the table has, and ask for more when given fewer
+fn c19(t: &[&str], out: &str) -> R {
+    if t[0] != "rnd" {
+        return Ok(false);
+    }
+    let n = us(t[2]);
+    let words = if t[3] == "-" { vec![] } else { parse_words(t[3]).ok_or("bad words")? };
+    let ts = table_size(n);
+    if words.len() < ts {
+        if out != "panic" {
+            return Err(format!("random() of {} variables was given {} words, needs {}, and still returned `{}`", n, words.len(), ts, out));
+        }
+        return Ok(true);
+    }
+    let f: Vec<&str> = out.split_whitespace().collect();
+    if f.len() != 3 || f[0] != "ok" {
+        return Err(format!("random() under an injected stream: `{}`", out));
+    }
+    let tab = parse_tab(f[1]).ok_or("bad table")?;
+    if tab.n != n || !tab.wf() {
+        return Err(format!("random() returned a malformed table {}", tab.show()));
+    }
+    for m in 0..(1usize << n) {
+        let want = (words[m / 64] >> (m % 64)) & 1 != 0;
+        if tab.bit(m) != want {
+            return Err(format!("random(): assignment {} does not read bit {} of stream word {} (table {})", m, m % 64, m / 64, tab.show()));
+        }
+    }
+    let left = words.len() - ts;
+    if f[2] != format!("left={}", left) {
+        return Err(format!("random() of {} variables read {} words of the stream instead of {}", n, f[2], ts));
+    }
+    Ok(true)
+}
+
 pub fn check(prop: &str, line: &str) -> R {
     let t: Vec<&str> = line.split_whitespace().collect();
     if t.is_empty() {
@@ -1877,6 +1914,7 @@ pub fn check(prop: &str, line: &str) -> R {
         "C15" => c15(&t, &out),
         "C16" => c16(&t, &out),
         "C17" => c17(&t, &out),
+        "C19" => c19(&t, &out),
         _ => Ok(false),
     }
 }
